@@ -11,7 +11,36 @@ COMMON_NOTE = ('Trusted: Coq 8.16.1 kernel (vm_compute for finite sweeps, no nat
                'the Gallina model is hand-written and tied to /repo by the behavioural correspondence run of this check '
                '(extracted with ExtrOcamlBasic only) and by Gen/Consts.v reflected from the live modules; ')
 
+ITEM_NOTE = ("threaded code: the real classes run unmodified under a deterministic scheduler whose stand-ins for Lock/RLock, queue.Queue, ThreadPoolExecutor, Thread, socket, time yield before every shared action and after every lock release; one LTS step = one lock region / queue operation / adapter-call boundary (data-race freedom => region atomicity under the GIL is assumed and exercised); schedule enumeration is exhaustive only within the stated preemption bound; eventual quiescence (termination) is not proved; CPython memory management is outside the model (retention is stated on the library's own data structures).")
+
 CLAIMS = {
+    'C01': dict(
+        text='Coq theorems over the per-item LTS Model/Item.v (one step = one lock region / queue put / adapter-call boundary; any number of dequeuer jobs, adapter threads, requests, steps): c01_at_most_once, c01_exactly_once_at_rest, '
+             'c01_never_discarded, c01_status (each reply line is exactly the success / adapter error / "too late" error the property prescribes), lifted to any number of items and any pool policy (c01_all_items). '
+             'Proved by an inductive invariant (Proofs/ItemInv.v, 15 conjuncts, ~9 kLOC of proofs) for EVERY interleaving. The real DataProviderServer runs under a deterministic scheduler and every executed step is replayed through the model '
+             '(label accepted, lines enqueued per step, invariants and monitors along the trace, final state), with bounded-exhaustive DFS, PCT and random schedules; the property text is evaluated as an oracle on the implementation traces.',
+        ref='6 C01', note=ITEM_NOTE,
+        tech='Coq proof (inductive invariant over an LTS, history monitors) + step-by-step correspondence of the real threaded code under a deterministic scheduler + oracle; bounded-exhaustive / PCT / random schedules for model validation and failing-schedule search'),
+    'C02': dict(
+        text='Coq theorems c02_serial_and_paired (calls never overlap; unsubscribe only right after a subscribe that returned), c02_single_dequeuer, c02_arrival_order, c02_right_method, c02_skipped_only_if_later, c02_latest_not_skipped, '
+             'c02_latest_executed (Props/C02.v) for every reachable state of the per-item LTS = every interleaving, any pool size; same correspondence and oracle machinery as C01 (adapter call windows from logical step numbers).',
+        ref='6 C02', note=ITEM_NOTE,
+        tech='Coq proof (inductive invariant + history monitors over an LTS) + scheduler-driven correspondence of the real code + oracle'),
+    'C03': dict(
+        text='Coq theorems c03_item_and_payload, c03_id_published, c03_published_not_skipped, c03_inside_subscribe, c03_between, c03_dropped, c03_never_subscribed, c03_after_unsubscription, c03_no_stale_id (Props/C03.v) over the per-item LTS with '
+             'listener calls from inside subscribe()/unsubscribe() and from any number of adapter threads at arbitrary moments; same correspondence machinery as C01, with nested and free listener calls scripted into the scenarios and a probe event after quiescence.',
+        ref='6 C03', note=ITEM_NOTE,
+        tech='Coq proof (inductive invariant + history monitors over an LTS) + scheduler-driven correspondence of the real code + oracle'),
+    'C17': dict(
+        text='Coq theorems c17_library_eos (monitor: exactly one library end-of-snapshot with the subscription id after a False availability answer and before subscribe() begins; none otherwise; no subscribe() after a raising query), '
+             'c17_eos_tag, c17_query_error_reported, c17_none_for_skipped (Props/C17.v) over the per-item LTS; same correspondence machinery as C01 with per-item availability in {True, False, raises}.',
+        ref='6 C17', note=ITEM_NOTE,
+        tech='Coq proof (inductive invariant + history monitor over an LTS) + scheduler-driven correspondence of the real code + oracle'),
+    'C19': dict(
+        text='Coq theorems c19_clean_after_unsubscription, c19_no_entry_no_reference, c19_events_dropped, c19_live_after_subscription, c19_never_requested, c19_counters_at_rest, c19_bounded (Props/C19.v) over the per-item LTS, '
+             'covering in particular an arrival between the dequeuer exit and its bookkeeping update (two lock regions of the same lock, all interleavings); the final per-item state of the real objects is compared with the model on every quiescent run.',
+        ref='6 C19', note=ITEM_NOTE,
+        tech='Coq proof (counter / generation invariants over an LTS) + scheduler-driven correspondence incl. end-state comparison + oracle'),
     'C05': dict(
         text='Coq theorems c05_alphabet / c05_sep_free / c05_roundtrip / c05_special_only / c05_injective / c05_alt (Props/C05.v) hold for '
              'every list of Unicode scalar values of any length (UTF-8 model + quote_plus model, per-byte facts closed by vm_compute over all '
